@@ -300,6 +300,9 @@ structure Facts where
   respBulk : Bool
   syncClient : ClientFacts
   asyncClient : ClientFacts
+  /-- anchors that were found but whose form at the spot the property depends on is not a recognised
+  one (the committed value is then used for the fact; `C08.anchors_recognised` fails) -/
+  unrecognised : List String
   deriving DecidableEq, Repr
 
 def BEVE : Nat := 1
